@@ -1559,7 +1559,145 @@ def _is_list_expr(e, list_names: Set[str]) -> bool:
         return True
     if isinstance(e, ast.BinOp) and isinstance(e.op, ast.Add) and (_is_list_expr(e.left, list_names) or _is_list_expr(e.right, list_names)):
         return True
+    # self.<attr> every assignment of which, in the whole package and in both trees, is a list (or a dict display of lists)
+    if isinstance(e, ast.Attribute) and isinstance(e.value, ast.Name) and e.value.id == "self" and e.attr in _LIST_ATTRS:
+        return True
+    if isinstance(e, ast.Subscript) and not isinstance(e.slice, (ast.Slice, ast.Tuple)):
+        v = e.value
+        if isinstance(v, ast.Attribute) and isinstance(v.value, ast.Name) and v.value.id == "self" and v.attr in _DICT_OF_LIST_ATTRS:
+            return True
+    if isinstance(e, ast.Subscript) and isinstance(e.slice, ast.Slice) and _is_list_expr(e.value, list_names):
+        return True
     return False
+
+
+_LIST_ATTRS: Set[str] = set()          # attributes of the class family being normalised bound only by `self.a = <list expression>` (both trees)
+_DICT_OF_LIST_ATTRS: Set[str] = set()  # ... bound only by `self.a = {k: <list expression>, ..}`, never stored into, aliased or used as a receiver
+_FAMILY_ATTRS: Dict[str, Tuple[Set[str], Set[str]]] = {}   # class name -> (list attributes, dict-of-list attributes) of its inheritance family
+
+
+def _set_family(cls: Optional[str]) -> None:
+    _LIST_ATTRS.clear(); _DICT_OF_LIST_ATTRS.clear()
+    if cls and cls in _FAMILY_ATTRS:
+        _LIST_ATTRS.update(_FAMILY_ATTRS[cls][0]); _DICT_OF_LIST_ATTRS.update(_FAMILY_ATTRS[cls][1])
+
+
+def list_typed_attrs(ts) -> Dict[str, Tuple[Set[str], Set[str]]]:
+    """Per class (shared by its whole inheritance family: classes connected through base-class links by
+    name), the attribute names that can only hold a list / a dict of lists: every binding of the name in
+    a method of the family is `self.a = <list expr>` (resp. a dict display whose values are list exprs),
+    `self.a += ..` keeps a list a list, no store `<other object>.a = ..` exists anywhere, and a
+    dict-of-lists attribute is only read by subscript / iterated / measured (never an item store, a
+    receiver of a method other than keys(), or an alias)."""
+    classes: Dict[str, ast.ClassDef] = {}
+    for t in ts:
+        for n in ast.walk(t):
+            if isinstance(n, ast.ClassDef):
+                classes[n.name] = n
+    fam = {c: c for c in classes}
+
+    def find(c):
+        while fam[c] != c:
+            fam[c] = fam[fam[c]]
+            c = fam[c]
+        return c
+
+    for c, n in classes.items():
+        for bnode in n.bases:
+            bn = bnode.id if isinstance(bnode, ast.Name) else (bnode.attr if isinstance(bnode, ast.Attribute) else None)
+            if bn in classes:
+                fam[find(c)] = find(bn)
+    binds: Dict[Tuple[str, str], List[ast.expr]] = {}
+    other: Set[str] = set()            # attribute names disqualified everywhere
+    touched: Set[Tuple[str, str]] = set()
+    for t in ts:
+        for top in ast.walk(t):
+            if not isinstance(top, ast.ClassDef):
+                continue
+            F = find(top.name)
+            parents = {}
+            for n in ast.walk(top):
+                for c in ast.iter_child_nodes(n):
+                    parents[c] = n
+            for b in top.body:
+                if isinstance(b, (ast.Assign, ast.AnnAssign)):
+                    for x in (b.targets if isinstance(b, ast.Assign) else [b.target]):
+                        if isinstance(x, ast.Name):
+                            other.add(x.id)
+            for n in ast.walk(top):
+                if isinstance(n, (ast.Assign, ast.AnnAssign)):
+                    for x in (n.targets if isinstance(n, ast.Assign) else [n.target]):
+                        if isinstance(x, ast.Attribute) and isinstance(x.value, ast.Name) and x.value.id == "self" and n.value is not None and isinstance(n, ast.Assign) and len(n.targets) == 1:
+                            binds.setdefault((F, x.attr), []).append(n.value)
+                elif isinstance(n, ast.AugAssign) and isinstance(n.target, ast.Attribute):
+                    if not isinstance(n.op, ast.Add):
+                        other.add(n.target.attr)
+                    touched.add((F, n.target.attr))
+                if isinstance(n, ast.Attribute) and isinstance(n.ctx, ast.Load) and isinstance(n.value, ast.Name) and n.value.id == "self":
+                    par = parents.get(n)
+                    ok = False
+                    if isinstance(par, ast.Subscript) and par.value is n and isinstance(par.ctx, ast.Load):
+                        gp = parents.get(par)
+                        if isinstance(gp, ast.Subscript) and gp.value is par and isinstance(gp.ctx, ast.Load) and isinstance(gp.slice, ast.Slice):
+                            ok = True
+                        elif isinstance(gp, ast.Call) and isinstance(gp.func, ast.Name) and gp.func.id == "len":
+                            ok = True
+                        elif isinstance(gp, (ast.For, ast.comprehension)) and gp.iter is par:
+                            ok = True
+                    elif isinstance(par, ast.Call) and isinstance(par.func, ast.Name) and par.func.id in ("list", "len", "sorted") and n in par.args:
+                        ok = True
+                    elif isinstance(par, ast.Attribute) and par.value is n and par.attr == "keys":
+                        ok = True
+                    elif isinstance(par, (ast.For, ast.comprehension)) and par.iter is n:
+                        ok = True
+                    elif isinstance(par, ast.Compare) and n in par.comparators and all(isinstance(o, (ast.In, ast.NotIn)) for o in par.ops):
+                        ok = True
+                    if not ok:
+                        touched.add((F, n.attr))
+        for n in ast.walk(t):
+            # stores that are not the plain single-target `self.a = v` counted above
+            if isinstance(n, ast.Attribute) and isinstance(n.ctx, (ast.Store, ast.Del)) and not (isinstance(n.value, ast.Name) and n.value.id == "self" and isinstance(n.ctx, ast.Store)):
+                other.add(n.attr)
+            elif isinstance(n, (ast.Tuple, ast.List)) and isinstance(getattr(n, "ctx", None), ast.Store):
+                for y in ast.walk(n):
+                    if isinstance(y, ast.Attribute):
+                        other.add(y.attr)
+            elif isinstance(n, ast.Assign) and len(n.targets) > 1:
+                for x in n.targets:
+                    if isinstance(x, ast.Attribute):
+                        other.add(x.attr)
+            elif isinstance(n, (ast.For, ast.comprehension, ast.withitem)):
+                tg = n.target if not isinstance(n, ast.withitem) else n.optional_vars
+                if tg is not None:
+                    for y in ast.walk(tg):
+                        if isinstance(y, ast.Attribute):
+                            other.add(y.attr)
+            elif isinstance(n, ast.Call) and isinstance(n.func, ast.Name) and n.func.id in ("setattr", "delattr", "vars"):
+                return {}
+            elif isinstance(n, ast.Attribute) and n.attr == "__dict__":
+                return {}
+    lists: Set[Tuple[str, str]] = set()
+    saved_l, saved_d = set(_LIST_ATTRS), set(_DICT_OF_LIST_ATTRS)
+    try:
+        _DICT_OF_LIST_ATTRS.clear()
+        for _ in range(3):
+            for (F, a), vals in binds.items():
+                if a in other or (F, a) in lists:
+                    continue
+                _LIST_ATTRS.clear(); _LIST_ATTRS.update(x for (f, x) in lists if f == F)
+                if all(_is_list_expr(v, set()) for v in vals):
+                    lists.add((F, a))
+        dicts: Set[Tuple[str, str]] = set()
+        for (F, a), vals in binds.items():
+            if a in other or (F, a) in touched or (F, a) in lists:
+                continue
+            _LIST_ATTRS.clear(); _LIST_ATTRS.update(x for (f, x) in lists if f == F)
+            if all(isinstance(v, ast.Dict) and v.values and all(k is not None for k in v.keys) and all(_is_list_expr(x, set()) for x in v.values) for v in vals):
+                dicts.add((F, a))
+    finally:
+        _LIST_ATTRS.clear(); _LIST_ATTRS.update(saved_l)
+        _DICT_OF_LIST_ATTRS.clear(); _DICT_OF_LIST_ATTRS.update(saved_d)
+    return {c: ({a for (f, a) in lists if f == find(c)}, {a for (f, a) in dicts if f == find(c)}) for c in classes}
 
 
 _FLIP = {ast.Gt: ast.Lt, ast.GtE: ast.LtE}
@@ -2133,7 +2271,91 @@ def _items_to_keys(fn):
     return fn
 
 
+def _fresh_list_expr(e, list_names: Set[str]) -> bool:
+    """A list object nobody else holds: a display, a comprehension, list()/sorted(), a concatenation, a slice copy."""
+    if isinstance(e, (ast.List, ast.ListComp)):
+        return True
+    if isinstance(e, ast.Call) and isinstance(e.func, ast.Name) and e.func.id in LIST_MAKERS:
+        return True
+    if isinstance(e, ast.BinOp) and isinstance(e.op, ast.Add):
+        return _is_list_expr(e.left, list_names) and _is_list_expr(e.right, list_names)
+    if isinstance(e, ast.Subscript) and isinstance(e.slice, ast.Slice):
+        return _is_list_expr(e.value, list_names)
+    return False
+
+
+def _merge_list_extension(fn):
+    """x = <fresh list A> ; x += <list B>   ->   x = A + B    (adjacent statements, B does not mention x:
+    the object bound to x is unshared when it is extended, so in-place extension and concatenation give
+    the same list to the only holder)."""
+    ln = _list_names(fn)
+    for owner, f, stmts in _blocks(fn):
+        k = 0
+        while k + 1 < len(stmts):
+            a, b = stmts[k], stmts[k + 1]
+            if (isinstance(a, ast.Assign) and len(a.targets) == 1 and isinstance(a.targets[0], ast.Name)
+                    and isinstance(b, ast.AugAssign) and isinstance(b.op, ast.Add) and isinstance(b.target, ast.Name) and b.target.id == a.targets[0].id
+                    and _fresh_list_expr(a.value, ln) and _is_list_expr(b.value, ln) and a.targets[0].id not in _names_loaded(b.value)
+                    and a.targets[0].id not in _names_loaded(a.value)):
+                stmts[k] = ast.Assign(targets=[a.targets[0]], value=ast.BinOp(left=a.value, op=ast.Add(), right=b.value))
+                del stmts[k + 1]
+                continue
+            k += 1
+    ast.fix_missing_locations(fn)
+    return fn
+
+
+_SERIES_NA = ("isna", "isnull", "notna", "notnull")
+
+
+def _series_any(fn):
+    """After `assert isinstance(y, Series)` on a name the function never rebinds, the truth value of
+    any(y.isna()) is that of y.isna().any() (iteration over a Series yields its elements; a DataFrame
+    would yield column names, hence the type evidence)."""
+    stored = {n.id for n in _walk_no_nested(fn) if isinstance(n, ast.Name) and isinstance(n.ctx, (ast.Store, ast.Del))}
+
+    class T(ast.NodeTransformer):
+        def __init__(self, names):
+            self.names = names
+
+        def visit_Call(self, n):
+            self.generic_visit(n)
+            if isinstance(n.func, ast.Name) and n.func.id in ("any", "all") and len(n.args) == 1 and not n.keywords:
+                a = n.args[0]
+                if isinstance(a, ast.Call) and isinstance(a.func, ast.Attribute) and a.func.attr in _SERIES_NA and not a.args and not a.keywords and isinstance(a.func.value, ast.Name) and a.func.value.id in self.names:
+                    return ast.Call(func=ast.Attribute(value=a, attr=n.func.id, ctx=ast.Load()), args=[], keywords=[])
+            return n
+
+    def tests_of(st):
+        if isinstance(st, (ast.If, ast.While, ast.Assert)):
+            return [("test", st.test)]
+        return []
+
+    def walk(stmts, names):
+        names = set(names)
+        for st in stmts:
+            if names:
+                # only expressions whose truth value alone is used (bool vs numpy.bool_ is then immaterial)
+                for x in [st] + list(_walk_no_nested(st)):
+                    if isinstance(x, (ast.If, ast.While, ast.Assert, ast.IfExp)):
+                        x.test = T(names).visit(x.test)
+            for f in ("body", "orelse", "finalbody"):
+                sub = getattr(st, f, None)
+                if isinstance(sub, list) and sub and isinstance(sub[0], ast.stmt) and not isinstance(st, (ast.FunctionDef, ast.ClassDef)):
+                    walk(sub, names)
+            if isinstance(st, ast.Assert):
+                t = st.test
+                if isinstance(t, ast.Call) and isinstance(t.func, ast.Name) and t.func.id == "isinstance" and len(t.args) == 2 and isinstance(t.args[0], ast.Name) and unparse_name(t.args[1]) in ("Series", "pd.Series", "pandas.Series") and t.args[0].id not in stored:
+                    names.add(t.args[0].id)
+
+    walk(fn.body, set())
+    ast.fix_missing_locations(fn)
+    return fn
+
+
 def expressions(fn):
+    fn = _merge_list_extension(fn)
+    fn = _series_any(fn)
     fn = _copy_overwrite(fn)
     fn = _items_to_keys(fn)
     fn = _enumerate_start(fn)
@@ -3108,10 +3330,13 @@ def substitute_equivalents(rel: str, tree: ast.Module, ref_sources: Dict[str, st
                 for m, h in (extra_methods or {}).items():
                     helpers_for_class.setdefault(m, h)
             table = HelperTable(new_module_helpers, helpers_for_class, aliases.get(cls, {}) if cls else {}, cls)
+            _set_family(cls)
             k_new = canon_key(node, table)
             k_ref = canon_key(ref_node, None)
         except RecursionError:
             continue
+        finally:
+            _set_family(None)
         if k_new != k_ref:
             if table.used:
                 # not equivalent, but it calls helpers the reference tree does not have: the rules
@@ -3250,6 +3475,13 @@ def substitute_all(trees: Dict[str, ast.Module], sources: Dict[str, str], ref_so
     la, fa = list_returning(ref_trees)
     lb, fb = list_returning(list(trees.values()))
     _LIST_RETURNING = {f for f in la | lb if (f not in fa or f in la) and (f not in fb or f in lb)}
+    _set_family(None)
+    fa_attrs = list_typed_attrs(ref_trees)
+    fb_attrs = list_typed_attrs(list(trees.values()))
+    _FAMILY_ATTRS.clear()
+    for c in fa_attrs:
+        if c in fb_attrs:
+            _FAMILY_ATTRS[c] = (fa_attrs[c][0] & fb_attrs[c][0], fa_attrs[c][1] & fb_attrs[c][1])
     _REPO_FUNCS = repo_a | repo_b
     _EAGER_GENERATORS = eager_generators(list(trees.values())) & eager_generators(ref_trees)
     _PURE_FUNCS = {f for f in (pure_a | pure_b) if (f not in repo_a or f in pure_a) and (f not in repo_b or f in pure_b)}
